@@ -5,19 +5,20 @@ CONSTANTS
   OnlyOpenEnded = FALSE
   CleanupById = FALSE
   Consumers = {"c1", "c2", "c3"}
-  MaxEpoch = 3
+  MaxEpoch = 2
   MaxSubs = 4
-  MaxOps = 7
+  MaxOps = 6
   UsePlain = FALSE
   UseBurst = TRUE
   UseFollower = TRUE
   UseBounded = TRUE
   C0 = "c1"
+  UseGrpc = FALSE
   UseRace = TRUE
   MaxElect = 2
   StrandedKnown = TRUE
   UseBad = TRUE
-INVARIANTS TypeOK MC_OneActive ActiveRegistered RegOK
+INVARIANTS TypeOK MC_OneActive C13_StreamEnded ActiveRegistered RegOK
 PROPERTIES StepsOK
 VIEW MCView
 CHECK_DEADLOCK FALSE
